@@ -12,6 +12,8 @@ import (
 	"sort"
 	"strconv"
 	"strings"
+	"sync/atomic"
+	"time"
 )
 
 type command func(o *opts) error
@@ -183,3 +185,36 @@ func (r *rng) intn(n int) int {
 func (r *rng) chance(pct int) bool { return r.intn(100) < pct }
 
 func (r *rng) pick(xs []string) string { return xs[r.intn(len(xs))] }
+
+// ---- watchdog: library code that never returns cannot be recovered in-process ------------------
+// A harness calls watchdogBeat(description of the case it is about to run); when no beat arrives for
+// `limit`, the watchdog writes <out>/HANG.txt (the last description) and exits with status 7.
+
+var wdCase atomic.Value
+var wdBeat atomic.Int64
+
+func watchdogBeat(desc string) {
+	wdCase.Store(desc)
+	wdBeat.Add(1)
+}
+
+func startWatchdog(out string, limit time.Duration) {
+	go func() {
+		last := int64(-1)
+		lastChange := time.Now()
+		for {
+			time.Sleep(250 * time.Millisecond)
+			b := wdBeat.Load()
+			if b != last {
+				last, lastChange = b, time.Now()
+				continue
+			}
+			if b > 0 && time.Since(lastChange) > limit {
+				desc, _ := wdCase.Load().(string)
+				_ = os.WriteFile(filepath.Join(out, "HANG.txt"), []byte(desc+"\n"), 0o644)
+				fmt.Fprintln(os.Stderr, "watchdog: no progress for", limit, "in case:", desc)
+				os.Exit(7)
+			}
+		}
+	}()
+}
